@@ -76,7 +76,7 @@ func main() {
 		ns := s
 		if !*noShim {
 			ns = reSync.ReplaceAllString(ns, `${1}sync "`+shimPath+`"`)
-			ns = reSyncutil.ReplaceAllString(ns, `${1}syncutil "`+shimPath+`"`)
+			ns = reSyncutil.ReplaceAllString(ns, `${1}syncutil "`+shimPath+`/vsyncutil"`)
 		}
 		if ns == s {
 			if src != p {
@@ -109,15 +109,20 @@ func main() {
 	}
 
 	if !*noShim {
-		ents, err := os.ReadDir(*shim)
+		// the shim directory becomes the virtual package tree <repo>/verifshim/...
+		err := filepath.Walk(*shim, func(p string, info os.FileInfo, err error) error {
+			if err != nil || info.IsDir() {
+				return err
+			}
+			if strings.HasSuffix(p, ".go") && !strings.HasSuffix(p, "_test.go") {
+				rel, _ := filepath.Rel(*shim, p)
+				abs, _ := filepath.Abs(p)
+				replace[filepath.Join(*repo, "verifshim", rel)] = abs
+			}
+			return nil
+		})
 		if err != nil {
 			fatal("shim: %v", err)
-		}
-		for _, e := range ents {
-			if strings.HasSuffix(e.Name(), ".go") && !strings.HasSuffix(e.Name(), "_test.go") {
-				abs, _ := filepath.Abs(filepath.Join(*shim, e.Name()))
-				replace[filepath.Join(*repo, "verifshim", e.Name())] = abs
-			}
 		}
 	}
 
